@@ -231,26 +231,26 @@ FLOORS = {
                            'ok:sort': 7400, 'ok:copy': 7000, 'ok:cycle': 1900,
                            'sortkey:case-matters': 1600, 'sortkey:moved': 1800, 'moved:sort': 3100,
                            'plain-order:case-matters': 25000, 'ghost:other-object-re-ordered-afterwards': 3100}},
-    'thorough': {'nontrivial': 370000,
-                 'monitors': {'M': 5100000, 'M.failed-op': 1500000, 'M.ghost': 280000, 'K1': 7000000, 'K2': 8700000,
-                              'M.sortkey': 90000, 'M.copy': 260000, 'M.copy.after-reorder': 98000,
-                              'M.ghost.after-reorder': 130000, 'M.plain-order': 1700000},
-                 'counters': {'reorder:item-variant': 1000000, 'reorder:ref-variant': 200000,
-                              'fail:reorder-missing-item': 450000, 'fail:reorder-missing-ref': 145000,
-                              'fail:self-relative': 170000, 'fail:self-relative-variant': 240000,
-                              'fail:del-missing': 150000, 'fail:get-missing': 19000, 'fail:then-more-ops': 1300000,
-                              'reorder:only-element': 500000, 'del:head': 90000, 'del:tail': 80000,
-                              'del:only': 115000, 'ok:sort': 260000, 'ok:copy': 260000, 'ok:cycle': 98000,
-                              'sortkey:case-matters': 52000, 'sortkey:moved': 63000, 'moved:sort': 109000,
-                              'plain-order:case-matters': 800000,
-                              'ghost:other-object-re-ordered-afterwards': 130000}},
+    'thorough': {'nontrivial': 410000,
+                 'monitors': {'M': 5900000, 'M.failed-op': 1600000, 'M.ghost': 340000, 'K1': 8100000, 'K2': 10000000,
+                              'M.sortkey': 100000, 'M.copy': 340000, 'M.copy.after-reorder': 120000,
+                              'M.ghost.after-reorder': 150000, 'M.plain-order': 2000000, 'M.uni': 500000},
+                 'counters': {'reorder:item-variant': 1100000, 'reorder:ref-variant': 240000,
+                              'fail:reorder-missing-item': 520000, 'fail:reorder-missing-ref': 160000,
+                              'fail:self-relative': 200000, 'fail:self-relative-variant': 280000,
+                              'fail:del-missing': 170000, 'fail:get-missing': 23000, 'fail:then-more-ops': 1500000,
+                              'reorder:only-element': 580000, 'del:head': 110000, 'del:tail': 100000,
+                              'del:only': 120000, 'ok:sort': 320000, 'ok:copy': 340000, 'ok:cycle': 120000,
+                              'sortkey:case-matters': 55000, 'sortkey:moved': 71000, 'moved:sort': 120000,
+                              'plain-order:case-matters': 900000,
+                              'ghost:other-object-re-ordered-afterwards': 150000}},
 }
 
 # per key function and per copy route (filled in below, once the tables exist): a run that never drives one of
 # them is INCONCLUSIVE, not held
-PER_SORTKEY_FLOOR = {'quick': 160, 'thorough': 6000}
-PER_COPY_FLOOR = {'quick': 300, 'thorough': 11000}
-PER_COPY_AFTER_REORDER_FLOOR = {'quick': 140, 'thorough': 4700}
+PER_SORTKEY_FLOOR = {'quick': 160, 'thorough': 7600}
+PER_COPY_FLOOR = {'quick': 300, 'thorough': 15000}
+PER_COPY_AFTER_REORDER_FLOOR = {'quick': 140, 'thorough': 6100}
 
 # round 7, non-ASCII names.  uni:variant:<role> = a PRESENT non-ASCII field addressed through a spelling that is not
 # the stored one, per operation kind (and item / reference role of order_before/after): every kind has a floor, so a
@@ -258,20 +258,25 @@ PER_COPY_AFTER_REORDER_FLOOR = {'quick': 140, 'thorough': 4700}
 UNI_VARIANT_FLOOR = {
     'quick': {'set': 500, 'del': 410, 'get': 100, 'in': 94, 'first': 440, 'last': 500, 'before-item': 500,
               'before-ref': 480, 'after-item': 460, 'after-ref': 480, 'pop': 100, 'setdefault': 87, 'update': 160},
-    'thorough': {},
+    'thorough': {'set': 31000, 'del': 18000, 'get': 3300, 'in': 2500, 'first': 22000, 'last': 23000,
+                 'before-item': 28000, 'before-ref': 28000, 'after-item': 27000, 'after-ref': 27000, 'pop': 3100,
+                 'setdefault': 1900, 'update': 4000},
 }
 UNI_START_FLOOR = {
     'quick': {'dict': 690, 'pairs': 60, 'parsed-str': 270, 'parsed-bytes': 250, 'parsed-lines': 34, 'iter': 35,
               'lazy': 290},
-    'thorough': {},
+    'thorough': {'dict': 17000, 'pairs': 1700, 'parsed-str': 7400, 'parsed-bytes': 7300, 'parsed-lines': 1900,
+                 'iter': 2100, 'lazy': 8000},
 }
-PER_UNI_COPY_FLOOR = {'quick': 52, 'thorough': 0}        # per copy route, paragraph holding a non-ASCII name
-PER_UNI_CYCLE_FLOOR = {'quick': 35, 'thorough': 0}       # per dump->parse route, paragraph holding a non-ASCII name
+PER_UNI_COPY_FLOOR = {'quick': 52, 'thorough': 3300}        # per copy route, paragraph holding a non-ASCII name
+PER_UNI_CYCLE_FLOOR = {'quick': 35, 'thorough': 2000}       # per dump->parse route, paragraph holding a non-ASCII name
 UNI_OTHER_FLOOR = {
     'quick': {'uni:sort:default': 180, 'uni:sort:caller-key': 120, 'uni:sort:stored-key': 280, 'uni:sort:moved': 440,
               'uni:sort:non-ascii-folding-matters': 27, 'uni:fail:self-relative-variant': 360,
               'uni:failed-op': 1800, 'uni:nontrivial': 1200},
-    'thorough': {},
+    'thorough': {'uni:sort:default': 9000, 'uni:sort:caller-key': 7400, 'uni:sort:stored-key': 9000,
+                 'uni:sort:moved': 15000, 'uni:sort:non-ascii-folding-matters': 900,
+                 'uni:fail:self-relative-variant': 23000, 'uni:failed-op': 100000, 'uni:nontrivial': 40000},
 }
 # the tolerated-unspecified probes are a fixed list run by every shard: their floors (pairs x 2 classes = one
 # shard's worth, built below) only say "they ran", never anything about their outcome
